@@ -183,6 +183,8 @@ def work(shard, res, tier, seed):
             carbon_one(r["reaction"], res, CheckCarbonBalance, is_carbon_balanced)
             if r["expected"]:
                 carbon_one(r["expected"], res, CheckCarbonBalance, is_carbon_balanced)
+        for k in range(0, min(len(pick), 200), 20):
+            atom_balance_sequence([r["reaction"] for r in pick[k:k + 20]], res, CheckCarbonBalance)
     if "data_decomposer" in shard:
         rows = rng.sample(corpus.validation_rows(), shard["data_decomposer"])
         for nj in (1, 4):
@@ -215,6 +217,29 @@ def work(shard, res, tier, seed):
             check_decompose(s, res, lambda _s, o=out: o, "pipeline")
 
 
+def atom_balance_sequence(rxs, res, CCB):
+    """the instance API (with its count cache) asked about several elements in one process, carbon last:
+    every label must agree with the oracle's count of *that* element"""
+    from rdkit import Chem
+    rxs = [rx for rx in rxs if oracle.in_domain_rsmi(rx)]
+    data = [{"r": rx} for rx in rxs]
+    for sym in ("O", "N", "C", "Cl", "C"):
+        got = CCB(data, rsmi_col="r", symbol=">>", atom_type=sym, n_jobs=1).check_carbon_balance()
+        for rx, g in zip(rxs, got):
+            a, b = rx.split(">>")
+
+            def cnt(s):
+                m = oracle.parse(s)
+                return sum(1 for at in m.GetAtoms() if at.GetSymbol() == sym)
+            ca, cb = cnt(a), cnt(b)
+            want = "balanced" if ca == cb else "products" if ca > cb else "reactants"
+            res.ev()
+            res.count("atom_balance_sequence_evaluated")
+            if g.get("carbon_balance_check") != want:
+                res.viol("atom_balance_label_wrong", case={"reaction": rx}, atom_type=sym,
+                         got=g.get("carbon_balance_check"), want=want, counts=[ca, cb])
+
+
 def carbon_one(rx, res, CCB, is_cb):
     if not oracle.in_domain_rsmi(rx):
         res.count("out_of_domain")
@@ -242,7 +267,7 @@ def conclude_args(res, tier, seed):
     ex = res.counters.get("vector_pairs", 0) == total
     return {"need": {"decompose_evaluated:direct": 1000, "decompose_evaluated:pipeline": 100,
                      "decompose_evaluated:mixture": 100, "additivity_evaluated": 100,
-                     "vector_pairs": total, "carbon_evaluated": 300, "sweep_elements": 100},
+                     "vector_pairs": total, "carbon_evaluated": 300, "sweep_elements": 100, "atom_balance_sequence_evaluated": 300},
             "min_cases": 500,
             "extra": {"exhaustive_subspace": "composition-vector pairs over {C,H,O,N} x counts 0..2 x charge "
                       "-2..2 (405^2 = %d) enumerated completely: %s; the rest of the run is sampled" % (total, ex)}}
